@@ -29,6 +29,29 @@ EXPLANATION = (
 )
 
 
+def _knapsack_selection_is_the_dp_s(ctx: Ctx, k):
+    """What is published as OPTIMAL is what the DP proved optimal: every item goes through the sweep, the selection
+    is written by the backtracking walk only, and decisions are taken on the sign-adjusted values."""
+    nodes = list(own_nodes(k.node))
+    sweeps = [n for n in nodes if isinstance(n, ast.For) and any(isinstance(x, ast.If) and "dp[" in ast.unparse(x.test) for x in ast.walk(n)) and isinstance(n.target, ast.Name) and not any(isinstance(p_, ast.For) and n in ast.walk(p_) and p_ is not n for p_ in nodes)]
+    ctx.require(len(sweeps) == 1, "the item sweep of the knapsack DP is not found once")
+    sw = sweeps[0]
+    inner = [x for x in sw.body if isinstance(x, ast.For)]
+    skips = [x for x in ast.walk(sw) if isinstance(x, (ast.Continue, ast.Break))]
+    ctx.ob("C16-O2", "R12 NO-CARDINALITY-CUTOFF", k, "every item takes part in the DP sweep (the capacity loop is an unconditional statement of the item loop; no continue / break)", ast.unparse(sw.iter) == "range(n)" and len(inner) == 1 and not skips, f"iter `{ast.unparse(sw.iter)}`, {len(inner)} unconditional capacity loop(s), {len(skips)} continue/break: an item settled outside the sweep is not covered by the optimality argument of the table", node=skips[0] if skips else sw)
+    back = [n for n in nodes if isinstance(n, ast.For) and any(isinstance(x, ast.If) and ast.unparse(x.test).startswith("keep[") for x in ast.walk(n))]
+    writes = []
+    for n in nodes:
+        if isinstance(n, ast.Call) and isinstance(n.func, ast.Attribute) and isinstance(n.func.value, ast.Name) and n.func.value.id == "selected" and n.func.attr in ("append", "extend", "insert", "remove", "pop", "clear"):
+            if not any(n in ast.walk(b_) for b_ in back):
+                writes.append(n)
+        elif isinstance(n, ast.AugAssign) and isinstance(n.target, ast.Name) and n.target.id == "selected":
+            writes.append(n)
+    ctx.ob("C16-O2", "R27 WRITE-OWNERSHIP", k, "the selection is extended only by the backtracking walk over the keep table", len(back) == 1 and not writes, f"`{ast.unparse(writes[0])[:60]}`: indices added beside the walk were not chosen by the DP, yet the answer is labelled OPTIMAL" if writes else "", node=writes[0] if writes else k.node)
+    raw = [c for c in nodes if isinstance(c, ast.Compare) and any(isinstance(x, ast.Name) and x.id == "values" for x in ast.walk(c))]
+    ctx.ob("C16-O2", "R4 SIGN-UNIT", k, "no decision is taken on the caller's unsigned `values` (the DP compares sign-adjusted values only)", not raw, f"`{ast.unparse(raw[0])[:60]}`: for minimize the sign is the other way round" if raw else "", node=raw[0] if raw else k.node)
+
+
 def run(ctx: Ctx):
     k = ctx.func("knapsack", "solve_knapsack")
     cfg = cfg_of(k.node)
@@ -80,6 +103,8 @@ def run(ctx: Ctx):
     ctx.ob("C16-O2", "R29 EXACTLY-ONCE", k, "backtracking visits items from last to first once, takes i iff keep[i][w], then lowers w by that item's scaled weight", "for i in range(n - 1, -1, -1):\n        if keep[i][w]:\n            selected.append(i)\n            w -= int_weights[i]" in t and "w = int_capacity" in t, "", node=k.node)
     ctx.ob("C16-O2", "R4 SIGN-UNIT", k, "DP maximises sign * value with sign = -1 exactly when minimizing", "sign = -1 if minimize else 1" in t and "vals = [sign * v for v in values]" in t and "v_i = vals[i]" in t, "", node=k.node)
     ctx.ob("C16-O2", "R18 table", k, "scaled weights are positive for positive weights and 0 only for weight 0", "int_weights = [max(1, int(w * scale)) if w > 0 else 0 for w in weights]" in t, "", node=k.node)
+
+    ctx.step(_knapsack_selection_is_the_dp_s, k)
 
     # O4 exactness gate: integral data is never rescaled (the DP is exact only on the unscaled integers)
     tic = ctx.func("knapsack", "_to_int_capacity")
@@ -269,7 +294,20 @@ def _t_reformat(tree):
     pass
 
 
+def _v_weightless_items_presolved(tree):
+    g = M.find_func(tree, "solve_knapsack")
+    sweep = [x for x in g.body if isinstance(x, ast.For) and M.src_has(x, "dp[w - w_i]")][0]
+    k = [i for i, st in enumerate(sweep.body) if isinstance(st, ast.For)][0]
+    sweep.body.insert(k, M.stmts("if w_i == 0:\n    continue")[0])
+    r = [i for i, st in enumerate(g.body) if isinstance(st, ast.Expr) and M.src_is(st.value, "selected.reverse()")]
+    if not r:
+        raise M.Skip("selected.reverse() not found")
+    g.body[r[0] + 1 : r[0] + 1] = M.stmts("selected.extend([i for i in range(n) if int_weights[i] == 0 and values[i] > 0])\nselected.sort()")
+
+
 VARIANTS = [
+    M.Variant("weightless items settled outside the DP by the sign of the raw value (seed C16-O)", KN, _v_weightless_items_presolved, "C16-O2"),
+
     M.Variant("zero-capacity shortcut publishes OPTIMAL without looking at items (original defect)", KN, _v_zero_capacity_shortcut, "C16-O1"),
     M.Variant("weight re-check removed", KN, _v_no_recheck, "C16-O1"),
     M.Variant("weight re-check on the scaled weights", KN, _v_recheck_scaled, "C16-O1"),
